@@ -269,7 +269,9 @@ func (y *c16L1Sys) devOps() []c16L1Op {
 		{"denom nobody holds", "l2addr", world.Coin("ibc/27394FB092D2ECCD56123C74F36E4C1F926001CEADA9CA97EA622B25F41E5EB2", 1), nil},
 	} {
 		d := d
-		add("Deposit(b1)["+d.name+"]", func(s *c16L1State) sdk.Msg { return ophosttypes.NewMsgInitiateTokenDeposit(a("alice"), 1, d.to, d.coin, d.data) })
+		add("Deposit(b1)["+d.name+"]", func(s *c16L1State) sdk.Msg {
+			return ophosttypes.NewMsgInitiateTokenDeposit(a("alice"), 1, d.to, d.coin, d.data)
+		})
 	}
 	for _, p := range []struct {
 		name string
@@ -318,7 +320,9 @@ func (y *c16L1Sys) devOps() []c16L1Op {
 	add("UpdateProposer(b1)[upper case]", func(s *c16L1State) sdk.Msg {
 		return ophosttypes.NewMsgUpdateProposer(s.w.Authority, 1, strings.ToUpper(a("proposer2")))
 	})
-	add("UpdateProposer(b1)[to the challenger]", func(s *c16L1State) sdk.Msg { return ophosttypes.NewMsgUpdateProposer(s.w.Authority, 1, a("challenger")) })
+	add("UpdateProposer(b1)[to the challenger]", func(s *c16L1State) sdk.Msg {
+		return ophosttypes.NewMsgUpdateProposer(s.w.Authority, 1, a("challenger"))
+	})
 	add("UpdateChallenger(b1)[upper case]", func(s *c16L1State) sdk.Msg {
 		return ophosttypes.NewMsgUpdateChallenger(s.w.Authority, 1, strings.ToUpper(a("challenger2")))
 	})
@@ -709,9 +713,9 @@ func (y *c16L2Sys) Letters(s *c16L2State) []engine.Letter {
 		}
 		for _, d := range []struct {
 			name, to, base string
-			amt           sdkmath.Int
-			height        uint64
-			data          []byte
+			amt            sdkmath.Int
+			height         uint64
+			data           []byte
 		}{
 			{"to=non-ASCII 300 bytes", long, "uxx", sdkmath.NewInt(3), 4, nil},
 			{"to=one space", " ", "uxx", sdkmath.NewInt(3), 4, nil},
